@@ -16,4 +16,5 @@ INVARIANTS
   EmitReplay
   RunnerSelfConsistent
   BuilderSound
+  FuseOrderIndependent
 CHECK_DEADLOCK FALSE
